@@ -239,12 +239,14 @@ class FnExec(ExprMixin, CallMixin, StmtMixin):
             self.oblige(st, goal, f"post/{e.name or i}", "post", text=e.text)
         # frame: parameter objects' fields not listed in modifies are unchanged
         self.check_frame(st)
-        if c.canary:
-            cl = Clause(c.canary)
+        # canary / vacuity guard on every return path: the negation of the first postcondition must NOT be
+        # provable (it is provable only if the hypotheses of this path are contradictory)
+        first = next((e for e in c.ensures if not e.native_only), None)
+        if first is not None:
             from .symex import Obligation
 
-            goal = self.eval_clause(cl, st)
-            ob = Obligation(f"{c.target}/canary#{self.returns_seen}", st.pc, goal, "canary", text=cl.text, fuel=c.fuel, defs=c.defs)
+            goal = smt.Not(self.eval_clause(first, st))
+            ob = Obligation(f"{c.target}/canary#{self.returns_seen}", st.pc, goal, "canary", text="not (" + first.text + ")", fuel=c.fuel, defs=c.defs)
             ob.expect = "not-unsat"
             self.obligations.append(ob)
         st.env = env_saved
